@@ -25,6 +25,10 @@ impl<'a, T> MMWriter<'a, T> {
     where
         T: Copy,
     {
+        #[cfg(kmertools_verif)]
+        if !crate::verif::log_write(pos, data.len(), self.slice.len()) {
+            return;
+        }
         ptr::copy_nonoverlapping(data.as_ptr(), self.slice[pos].get(), data.len());
     }
 }
